@@ -110,6 +110,7 @@ Section Model.
   Variable jeqb : J -> J -> bool.          (* equality of jd pairs as seen by __hash__/__eq__ *)
   Variable vj : Z -> Z -> J -> V.           (* scale, fmt, jd pair -> value row: Format.from_jds *)
   Variable cv : J -> J.                     (* conversion scale 0 -> scale 1 (elementwise) *)
+  Variable cvi : J -> J.                    (* conversion scale 1 -> scale 0 (not the exact inverse: last bits) *)
   Variable fmt_to : Z -> Z.                 (* format of the converted array (fallback "jd") *)
   Variable cv_iter : bool.                  (* the conversion iterates over its argument (delta_tai_utc:
                                                `for t in time`) and reads time.mjd through to_format *)
@@ -369,6 +370,9 @@ Section Model.
     | Some h' => (st, nth_error (heap st) h')
     | None =>
       if q_side q && cv_iter && negb (o_scalar o) && is_js (o_jd o) then (st, None)
+      else if q_cache q && cv_iter && is_js (o_jd o) &&
+              match assoc fkey_eqb (o_scale o, flat (o_jd o)) (fcache st) with Some false => true | _ => false end
+      then (st, None)      (* jd1 scalar / jd2 array: outside the model, not generated *)
       else
         let st0 := if q_side q && cv_iter && negb (o_scalar o)
                    then match rev (flat (o_jd o)) with j :: _ => set_heap_sl st h (Some (JS j)) | [] => st end
@@ -379,16 +383,46 @@ Section Model.
          else st0, Some o')
     end.
 
-  (* TimeArray.insert(a, pos, b, {}): b is first brought to the scale of a (modelled: a in scale 1, b an array
-     in scale 0), then values and jd pairs of the converted b are inserted *)
+  (* getattr(b, <scale 0>) of an object of scale 1 (only used by insert; utc/tai configurations): tai -> utc
+     iterates over its argument as well and reads `time.tai` (own scale, through the cache: b is registered) *)
+  Definition convert_back (q : quirks) (st : state) (h : nat) (o : obj) : state * option obj :=
+    let key := (o_scale o, flat (o_jd o), 0) in
+    match (if q_cache q then assoc skey_eqb key (scache st) else None) with
+    | Some h' => (st, nth_error (heap st) h')
+    | None =>
+      if q_side q && cv_iter && negb (o_scalar o) && is_js (o_jd o) then (st, None)
+      else if q_cache q && cv_iter && is_js (o_jd o) &&
+              match assoc fkey_eqb (o_scale o, flat (o_jd o)) (fcache st) with Some false => true | _ => false end
+      then (st, None)
+      else
+        let st0 := if q_side q && cv_iter && negb (o_scalar o)
+                   then match rev (flat (o_jd o)) with j :: _ => set_heap_sl st h (Some (JS j)) | [] => st end
+                   else st in
+        let o' := from_jds 0 (o_fmt o) (map_jdv cvi (o_jd o)) in
+        (if q_cache q
+         then let own := (o_scale o, flat (o_jd o), o_scale o) in
+              let sc0 := match assoc skey_eqb own (scache st0) with
+                         | Some _ => scache st0
+                         | None => (own, h) :: scache st0
+                         end in
+              mkState (heap st0 ++ [o']) (names st0) ((key, length (heap st0)) :: sc0) (fcache st0)
+         else st0, Some o')
+    end.
+
+  (* TimeArray.insert(a, pos, b, {}): b (array or single epoch) is first brought to the scale of a, then values and jd pairs of the converted b are inserted *)
   Definition do_insert (q : quirks) (st : state) (k : nat) (pos : Z) (j : nat) : state * result :=
     match getobj st k, getobj st j with
     | Some (_, a), Some (hb, b) =>
       if o_scalar a then (st, RErr)
       else if o_scale a =? o_scale b then
         (if o_fmt a =? o_fmt b then ins q st a b pos else (st, RErr))
-      else if (o_scale a =? 1) && (o_scale b =? 0) && negb (o_scalar b) then
+      else if (o_scale a =? 1) && (o_scale b =? 0) then
         match convert_anon q st hb b with
+        | (st1, Some b') => if o_fmt a =? o_fmt b' then ins q st1 a b' pos else (st1, RErr)
+        | (st1, None) => (st1, RErr)
+        end
+      else if (o_scale a =? 0) && (o_scale b =? 1) then
+        match convert_back q st hb b with
         | (st1, Some b') => if o_fmt a =? o_fmt b' then ins q st1 a b' pos else (st1, RErr)
         | (st1, None) => (st1, RErr)
         end
@@ -484,11 +518,12 @@ Inductive jo : Type := S1 (z : Z) | A1 (l : list Z).
 (* what is read off an object: scalar?, value rows, jd1, jd2, len, derived format, fmt, scale *)
 Record oobs : Type := mkO {
   b_scalar : bool; b_vals : list (list Z); b_jd1 : jo; b_jd2 : jo; b_len : Z; b_der : jo; b_fmt : Z; b_scale : Z }.
-Inductive obsres : Type := OErr | OObj (o : oobs) | OList (l : list oobs) | OMixed.
+Inductive obsres : Type := OErr | OObj (o : oobs) | OList (l : list oobs) | OMixed | ONotTime.
 
 Record tables : Type := mkT {
   t_vj : list ((Z * Z * tJ) * tV);     (* (scale, fmt, jd pair) -> row *)
   t_cv : list (tJ * tJ);
+  t_cvi : list (tJ * tJ);
   t_dv : list ((Z * tJ) * Z);          (* (scale, jd pair) -> derived format value *)
   t_fmt_to : list (Z * Z);
   t_cv_iter : bool
@@ -506,6 +541,7 @@ Fixpoint assocd {K W : Type} (e : K -> K -> bool) (d : W) (k : K) (l : list (K *
 
 Definition T_vj (t : tables) (s f : Z) (j : tJ) : tV := assocd key3_eqb [(-1)] (s, f, j) (t_vj t).
 Definition T_cv (t : tables) (j : tJ) : tJ := assocd tJ_eqb (-1, -1) j (t_cv t).
+Definition T_cvi (t : tables) (j : tJ) : tJ := assocd tJ_eqb (-2, -2) j (t_cvi t).
 Definition T_dv (t : tables) (s : Z) (j : tJ) : Z := assocd key2_eqb (-1) (s, j) (t_dv t).
 Definition T_fmt_to (t : tables) (f : Z) : Z := assocd Z.eqb (-1) f (t_fmt_to t).
 
@@ -544,6 +580,7 @@ Definition obsres_eqb (a b : obsres) : bool :=
   | OObj x, OObj y => oobs_eqb x y
   | OList x, OList y => list_eqb oobs_eqb x y
   | OMixed, OMixed => true
+  | ONotTime, ONotTime => true
   | _, _ => false
   end.
 
@@ -555,12 +592,12 @@ Definition variants : list quirks :=
     mkQ true false false; mkQ false true false; mkQ false false true;
     mkQ true true false; mkQ true false true; mkQ false true true; quirks_on ].
 
-Definition mstep (t : tables) (q : quirks) := step tV tJ tJ_eqb (T_vj t) (T_cv t) (T_fmt_to t) (t_cv_iter t) q.
+Definition mstep (t : tables) (q : quirks) := step tV tJ tJ_eqb (T_vj t) (T_cv t) (T_cvi t) (T_fmt_to t) (t_cv_iter t) q.
 Definition minit (t : tables) (q : quirks) := init tV tJ tJ_eqb (T_vj t) q.
 
 (* what a model variant predicts for a whole history (used for replay files) *)
 Definition predict (t : tables) (fmt : Z) (js : list tJ) (ps : list op) (q : quirks) : list obsres :=
-  map (obs_res t) (snd (run tV tJ tJ_eqb (T_vj t) (T_cv t) (T_fmt_to t) (t_cv_iter t) q (minit t q fmt js) ps)).
+  map (obs_res t) (snd (run tV tJ tJ_eqb (T_vj t) (T_cv t) (T_cvi t) (T_fmt_to t) (t_cv_iter t) q (minit t q fmt js) ps)).
 
 (* a variant explains a node only if it has explained every node on the way to it (`alive`): a variant whose
    state has already diverged from the implementation can agree with a later observation only by accident.
@@ -645,9 +682,9 @@ Definition check_write (c : Z * bool * bool) : Z :=
    observation of b brought to the scale and format of a by a fresh conversion; the result must be a's rows,
    jd1, jd2 and derived format with b's inserted at pos (error iff pos is out of range) *)
 Definition jo_list (x : jo) : list Z := match x with S1 z => [z] | A1 l => l end.
-Definition check_insert (c : oobs * oobs * Z * obsres) : Z :=
+Definition check_insert (c : bool * oobs * oobs * Z * obsres) : Z :=
   match c with
-  | (a, b, pos, new) =>
+  | (gpsws_other_fmt, a, b, pos, new) =>
     let expected :=
       match insert_at (b_vals a) pos (b_vals b), insert_at (jo_list (b_jd1 a)) pos (jo_list (b_jd1 b)),
             insert_at (jo_list (b_jd2 a)) pos (jo_list (b_jd2 b)), insert_at (jo_list (b_der a)) pos (jo_list (b_der b)) with
@@ -655,5 +692,22 @@ Definition check_insert (c : oobs * oobs * Z * obsres) : Z :=
         OObj (mkO false vs (A1 j1) (A1 j2) (Z.of_nat (length vs)) (A1 d) (b_fmt a) (b_scale a))
       | _, _, _, _ => OErr
       end in
-    if obsres_eqb new expected then 0 else 1
+    if obsres_eqb new expected then 0
+    else if gpsws_other_fmt then 2   (* target in the 3-column format, inserted array given in another format:
+                                        the converted (week, seconds, day) columns are inserted as rows *)
+    else 1
+  end.
+
+(* t[<NumPy integer scalar or 0-d integer array>] must be what t[<the same Python int>] is (both observed on fresh
+   arrays).  verdict 2 = the result is not a time object at all (a bare float; an error for a 0-d array index on
+   gps_ws): the integer branch of __getitem__ only recognises int / np.int_ *)
+Definition check_idx (c : Z * obsres * obsres) : Z :=
+  match c with
+  | (kind, with_int, with_np) =>
+    if obsres_eqb with_int with_np then 0
+    else match kind, with_np with
+         | 1, ONotTime | 1, OErr => 2      (* kind 1: not np.int64 / np.intp, which the source does recognise *)
+         | 2, ONotTime => 2                (* kind 2: column index on a single gps_ws epoch, must raise *)
+         | _, _ => 1
+         end
   end.
